@@ -99,36 +99,60 @@ def gen(ctx: Ctx):
     mi = _find_method(tm, "MolGrid", "interpolate")
     unit(src_m, mi, "MolGrid.interpolate", "src/grid/molgrid.py")
 
-    # --- r < 1e-8 in integrate_angular_coordinates
-    lts = _lt_consts(meth["integrate_angular_coordinates"])
-    if len(lts) != 1 or lts[0][0] != "self.rgrid.points":
-        raise Unsupported(f"integrate_angular_coordinates: expected exactly one `self.rgrid.points < c`, found {lts}")
-    eps_small = lts[0][1]
-    # --- r == 0.0 in convert_cartesian_to_spherical (canonical angles)
-    eqs = [ast.unparse(n) for n in ast.walk(meth["convert_cartesian_to_spherical"]) if isinstance(n, ast.Compare)]
-    if "self.rgrid.points == 0.0" not in eqs:
-        raise Unsupported(f"convert_cartesian_to_spherical: `self.rgrid.points == 0.0` not found ({eqs})")
-    # --- f_radial /= 4.0 * np.pi
-    divs = [n for n in ast.walk(meth["spherical_average"]) if isinstance(n, ast.AugAssign) and isinstance(n.op, ast.Div)]
-    if len(divs) != 1 or ast.unparse(divs[0].value) != "4.0 * np.pi":
-        raise Unsupported("spherical_average: expected `f_radial /= 4.0 * np.pi`")
-    fourpi = 4.0 * np.pi
-    # --- thresholds of the Jacobian
-    lts = sorted(_lt_consts(conv))
-    if [x[0] for x in lts] != ["np.abs(phi)", "np.abs(r)"] or lts[0][1] != lts[1][1]:
-        raise Unsupported(f"convert_derivative_from_spherical_to_cartesian: thresholds {lts}")
-    eps_jac = lts[0][1]
-    # --- every harmonic generator call in atomgrid.py uses self.l_max // 2
-    ncall = 0
-    for fn in (meth["radial_component_splines"], meth["interpolate"]):
-        for n in ast.walk(fn):
-            if isinstance(n, ast.Call) and isinstance(n.func, ast.Name) and n.func.id in (
-                    "generate_real_spherical_harmonics", "generate_derivative_real_spherical_harmonics"):
-                ncall += 1
-                if not n.args or ast.unparse(n.args[0]) != "self.l_max // 2":
-                    raise Unsupported(f"{fn.name}: {n.func.id} called with degree {ast.unparse(n.args[0]) if n.args else '?'}")
-    if ncall != 3:
-        raise Unsupported(f"expected 3 harmonic generator calls in atomgrid.py, found {ncall}")
+    # The constants below parametrise the model.  A source pattern that is no longer recognised is recorded as a failed
+    # obligation (fail closed) and the expected constant is used, so that the property oracle can still look for a
+    # concrete failing input.
+    problems = []
+
+    def attempt(label, fn, default):
+        try:
+            return fn()
+        except Unsupported as e:
+            problems.append(f"{label}: {e}")
+            return default
+
+    def get_eps_small():
+        lts = _lt_consts(meth["integrate_angular_coordinates"])
+        if len(lts) != 1 or lts[0][0] != "self.rgrid.points":
+            raise Unsupported(f"integrate_angular_coordinates: expected exactly one `self.rgrid.points < c`, found {lts}")
+        return lts[0][1]
+
+    def get_canonical():
+        eqs = [ast.unparse(n) for n in ast.walk(meth["convert_cartesian_to_spherical"]) if isinstance(n, ast.Compare)]
+        if "self.rgrid.points == 0.0" not in eqs:
+            raise Unsupported(f"convert_cartesian_to_spherical: `self.rgrid.points == 0.0` not found ({eqs})")
+        return True
+
+    def get_fourpi():
+        divs = [n for n in ast.walk(meth["spherical_average"]) if isinstance(n, ast.AugAssign) and isinstance(n.op, ast.Div)]
+        if len(divs) != 1 or ast.unparse(divs[0].value) != "4.0 * np.pi":
+            raise Unsupported("spherical_average: expected `f_radial /= 4.0 * np.pi`")
+        return 4.0 * np.pi
+
+    def get_eps_jac():
+        lts = sorted(_lt_consts(conv))
+        if [x[0] for x in lts] != ["np.abs(phi)", "np.abs(r)"] or lts[0][1] != lts[1][1]:
+            raise Unsupported(f"convert_derivative_from_spherical_to_cartesian: thresholds {lts}")
+        return lts[0][1]
+
+    def get_degree_arg():
+        ncall = 0
+        for fn in (meth["radial_component_splines"], meth["interpolate"]):
+            for n in ast.walk(fn):
+                if isinstance(n, ast.Call) and isinstance(n.func, ast.Name) and n.func.id in (
+                        "generate_real_spherical_harmonics", "generate_derivative_real_spherical_harmonics"):
+                    ncall += 1
+                    if not n.args or ast.unparse(n.args[0]) != "self.l_max // 2":
+                        raise Unsupported(f"{fn.name}: {n.func.id} called with degree {ast.unparse(n.args[0]) if n.args else '?'}")
+        if ncall < 3:
+            raise Unsupported(f"expected at least 3 harmonic generator calls in atomgrid.py, found {ncall}")
+        return True
+
+    eps_small = attempt("eps_small", get_eps_small, 1e-8)
+    attempt("canonical_angles", get_canonical, None)
+    fourpi = attempt("fourpi", get_fourpi, 4.0 * np.pi)
+    eps_jac = attempt("eps_jac", get_eps_jac, 1e-10)
+    attempt("harmonic_degree", get_degree_arg, None)
 
     def nd(x):
         fr = Fraction(x)
@@ -141,7 +165,7 @@ def gen(ctx: Ctx):
             f"Definition eps_jac_nd : Z * Z := {nd(eps_jac)}.   (* {eps_jac!r} *)\n"
             f"Definition fourpi_me : Z * Z := ({m}, {e})%Z.   (* 4.0 * np.pi = {fourpi!r} *)\n")
     ctx.gen("C09_gen.v", text, units)
-    return {"eps_small": eps_small, "eps_jac": eps_jac, "fourpi": fourpi}
+    return {"eps_small": eps_small, "eps_jac": eps_jac, "fourpi": fourpi, "problems": problems}
 
 
 # ====================================================================== independent harmonics / geometry (oracle side)
@@ -216,13 +240,22 @@ def install_recorder(rec):
 
 
 # ====================================================================== Coq literals
-def dy(x):
+def _me(x):
     m, e = fr_me(x)
-    return f"(dy ({m}) ({e}))" if (m < 0 or e < 0) else f"(dy {m} {e})"
+    if abs(m) >= 2 ** 62 or abs(e) >= 2 ** 20:
+        raise ValueError(f"{x!r} is not a double")
+    return (f"({m})" if m < 0 else str(m)), (f"({e})" if e < 0 else str(e))
+
+
+def dy(x):
+    """one exact dyadic as primitive-integer literals (parsed natively): dq m e = m * 2^e"""
+    m, e = _me(x)
+    return f"(dq {m} {e})"
 
 
 def dyl(xs):
-    return "[" + "; ".join(dy(x) for x in xs) + "]"
+    """list of exact dyadics: dl [m1; e1; m2; e2; ...]"""
+    return "(dl [" + "; ".join("; ".join(_me(x)) for x in xs) + "])"
 
 
 def dyll(rows):
@@ -233,10 +266,11 @@ def bcoq(b):
     return "true" if b else "false"
 
 
-EXEC_HEADER = """From Coq Require Import List ZArith Bool.
+EXEC_HEADER = """From Coq Require Import List ZArith Bool Sint63.
 From Bignums Require Import BigQ.
 From P Require Import C09_model C09_gen C09_model_exec.
 Import ListNotations.
+Open Scope sint63_scope.
 """
 
 
@@ -410,11 +444,14 @@ def eval_points(rng, info, extra=True):
 
 
 def point_class(off):
-    """'centre' | 'axis' | 'generic' for an offset from the centre"""
+    """'centre' | 'axis' | 'near-axis' | 'generic' for an offset from the centre.  'near-axis' (sin(phi) < 1e-6, e.g. a
+    tabulated grid point with a coordinate of 1e-17 instead of 0) is never used for angular finite differences."""
     if not np.any(off):
         return "centre"
     if off[0] == 0.0 and off[1] == 0.0:
         return "axis"
+    if math.hypot(off[0], off[1]) < 1e-6 * abs(off[2]):
+        return "near-axis"
     return "generic"
 
 
@@ -525,7 +562,7 @@ def validate_spline_hypotheses(ctx, rng, report):
                f"scipy CubicSpline violates a hypothesis of the theorems (knots / linear / derivative): {worst}", {}, found=False)
 
 
-def check_atom(ctx, cfg, rec, B: Bucket, report, tag):
+def check_atom(ctx, cfg, rec, B: Bucket, report, tag, axis_today=True):
     """returns dict with the objects the molecular check re-uses, or None"""
     import random
 
@@ -614,7 +651,7 @@ def check_atom(ctx, cfg, rec, B: Bucket, report, tag):
         if not close(ia, exp, scale):
             i = int(np.argmax(np.abs(ia - exp)))
             orep("angular_integral_exact", "int_ang", float(ia[i]),
-                 f"shell {i} (r={info.r[i]}): angular integral {ia[i]!r}, exact sqrt(4 pi) g_00(r_i) = {exp[i]!r}", {"shell": i, "expected": exp.tolist(), "observed_all": ia.tolist()})
+                 f"shell {i} (r={float(info.r[i])}): angular integral {float(ia[i])!r}, exact sqrt(4 pi) g_00(r_i) = {float(exp[i])!r}", {"shell": i, "expected": exp.tolist(), "observed_all": ia.tolist()})
         tot = float(np.sum(info.r ** 2 * info.w * ia))
         if not close(tot, own_int, max(scale, abs(own_int))) or not close(float(grid.integrate(fv)), own_int, max(scale, abs(own_int))):
             orep("reweighted_sum_is_integral", "reweighted", tot,
@@ -646,7 +683,7 @@ def check_atom(ctx, cfg, rec, B: Bucket, report, tag):
             k, i = np.unravel_index(int(np.argmax(d)), d.shape)
             l = int(math.isqrt(k))
             orep("components_recovered", f"component:{which}", float(ys[k, i]),
-                 f"radial component row {k} (l={l}) at shell {i} (r={info.r[i]}, degree {info.degs[i]}): value handed to the spline {ys[k, i]!r}, g_lm(r_i) = {exp[k, i]!r}",
+                 f"radial component row {k} (l={l}) at shell {i} (r={float(info.r[i])}, degree {info.degs[i]}): value handed to the spline {float(ys[k, i])!r}, g_lm(r_i) = {float(exp[k, i])!r}",
                  {"row": int(k), "shell": int(i), "expected": float(exp[k, i]), "call": which})
         if finite(ys):
             B.case(f"qrows_close {tol_q} (rad_comps_q {gname} {fname}) {dyll(ys)}", (f"spline_data:{which}", cfg, trep))
@@ -698,7 +735,7 @@ def check_atom(ctx, cfg, rec, B: Bucket, report, tag):
             j = int(np.argmax(d))
             i = int(np.searchsorted(info.idx, j, side="right") - 1)
             orep("interpolant_at_grid_points", "grid_points", float(got[j]),
-                 f"grid point {j} (shell {i}, r={info.r[i]}): interpolant {got[j]!r}, function value {fv[j]!r}", {"point_index": j, "shell": i, "expected": float(fv[j])})
+                 f"grid point {j} (shell {i}, r={info.r[i]}): interpolant {float(got[j])!r}, function value {float(fv[j])!r}", {"point_index": j, "shell": i, "expected": float(fv[j])})
 
     # arbitrary points: tie of every mode + definition + derivative self-consistency
     P = eval_points(rng, info, extra=not ctx.quick or tag % 2 == 0)
@@ -715,8 +752,20 @@ def check_atom(ctx, cfg, rec, B: Bucket, report, tag):
     phown = np.where(rown > 0, phown, 0.0)
     pname = f"p{tag}"
     B.defs.append(f"Definition {pname} : list (bigQ * ddata) :=\n  {coq_pts(info.lmax // 2, sphP)}.\n")
-    Yp = own_Y(info.lmax // 2, thown, phown)
+    # The model mirrors the zeroed Jacobian columns on the polar axis / at the centre (the listed known finding).  If the
+    # implementation no longer shows that behaviour (directed witnesses do not reproduce), those points are left out of the
+    # Cartesian-mode correspondence and are covered by the finite-difference oracle instead.
+    generic_idx = [j for j in range(M) if point_class(off[j]) == "generic"]
+    if not axis_today:
+        B.defs.append(f"Definition pg{tag} : list (bigQ * ddata) :=\n  {coq_pts(info.lmax // 2, sphP[generic_idx])}.\n")
+    Yp_all = own_Y(info.lmax // 2, thown, phown)
+    P_all, sph_all, off_all, rown_all, pname_all = P, sphP, off, rown, pname
     for mode in MODES:
+        if mode == (1, False, False) and not axis_today:
+            P, sphP, off, rown, pname, Yp = P_all[generic_idx], sph_all[generic_idx], off_all[generic_idx], rown_all[generic_idx], f"pg{tag}", Yp_all[:, generic_idx]
+        else:
+            P, sphP, off, rown, pname, Yp = P_all, sph_all, off_all, rown_all, pname_all, Yp_all
+        M = len(P)
         rec.calls = []
         st, out = call_closure(it, P, mode)
         ctx.case(("mode", key0, mode))
@@ -748,9 +797,9 @@ def check_atom(ctx, cfg, rec, B: Bucket, report, tag):
             if out.shape != (M,) or not close(out, exp, spl_scale * (1 + maxabs(exp)), 1e-9):
                 j = int(np.argmax(np.abs(out - exp))) if out.shape == (M,) else 0
                 orep("interpolant_def", f"definition:{mode}", float(out[j]) if out.shape == (M,) else str(out.shape),
-                     f"point centre+{off[j].tolist()}, deriv={mode[0]}: closure returns {out[j] if out.shape == (M,) else out.shape!r}, sum_k spline_k(r, nu) Y_k(theta, phi) = {exp[j]!r}",
+                     f"point centre+{off[j].tolist()}, deriv={mode[0]}: closure returns {out[j] if out.shape == (M,) else out.shape!r}, sum_k spline_k(r, nu) Y_k(theta, phi) = {float(exp[j])!r}",
                      {"offset": off[j].tolist(), "mode": list(mode), "expected": float(exp[j])})
-    derivative_oracle(ctx, cfg, info, it, P, off, splines, spl_scale, orep)
+    derivative_oracle(ctx, cfg, info, it, P_all, off_all, splines, spl_scale, orep, axis_today)
     return {"grid": grid, "info": info}
 
 
@@ -773,7 +822,7 @@ def fd_disagrees(ret, d1, d2, scale, rnd=0.0):
     return np.abs(ret - d2) - (4.0 * np.abs(d1 - d2) + rnd + 1e-6 * max(1.0, scale))
 
 
-def derivative_oracle(ctx, cfg, info, it, P, off, splines, scale, orep):
+def derivative_oracle(ctx, cfg, info, it, P, off, splines, scale, orep, axis_today=True):
     """the returned derivatives are derivatives of the returned interpolant (finite differences of the closure itself).
     Centre and polar axis: values and radial derivatives only (the Cartesian / polar-angle derivatives there are the
     listed known finding, re-derived by directed witnesses)."""
@@ -804,10 +853,10 @@ def derivative_oracle(ctx, cfg, info, it, P, off, splines, scale, orep):
         if np.max(ex) > 0:
             j = int(np.argmax(ex))
             orep("derivatives_consistent_radial", f"radial:{nu}", float(ret[j]),
-                 f"point centre+{off[sel[j]].tolist()}: closure(deriv={nu}, only_radial_deriv=True) = {ret[j]!r}, finite differences of the closure with deriv={nu - 1}: {d1[j]!r} (h) / {d2[j]!r} (h/2)",
+                 f"point centre+{off[sel[j]].tolist()}: closure(deriv={nu}, only_radial_deriv=True) = {float(ret[j])!r}, finite differences of the closure with deriv={nu - 1}: {float(d1[j])!r} (h) / {float(d2[j])!r} (h/2)",
                  {"offset": off[sel[j]].tolist(), "nu": nu, "expected_fd": float(d2[j])})
     # --- spherical and Cartesian first derivatives away from the axis
-    gen = [j for j in sel if cls[j] == "generic"]
+    gen = [j for j in sel if cls[j] == "generic" or (cls[j] == "axis" and not axis_today)]
     if not gen:
         return
     base = P[gen]
@@ -833,7 +882,7 @@ def derivative_oracle(ctx, cfg, info, it, P, off, splines, scale, orep):
             if np.max(ex) > 0:
                 j = int(np.argmax(ex))
                 orep("derivatives_consistent_spherical", f"spherical:{name}", float(ret[j]),
-                     f"point centre+{off[gen[j]].tolist()}: returned d/d{name} = {ret[j]!r}, finite differences of the closure in {name}: {d1[j]!r} (h) / {d2[j]!r} (h/2)",
+                     f"point centre+{off[gen[j]].tolist()}: returned d/d{name} = {float(ret[j])!r}, finite differences of the closure in {name}: {float(d1[j])!r} (h) / {float(d2[j])!r} (h/2)",
                      {"offset": off[gen[j]].tolist(), "component": name, "expected_fd": float(d2[j])})
     out = np.asarray(it(base, deriv=1), dtype=float)
     if out.shape != (m, 3):
@@ -847,11 +896,12 @@ def derivative_oracle(ctx, cfg, info, it, P, off, splines, scale, orep):
         if np.max(ex) > 0:
             j = int(np.argmax(ex))
             orep("derivatives_consistent_cartesian_partial", f"cartesian:{name}", float(out[j, c]),
-                 f"point centre+{off[gen[j]].tolist()}: returned d/d{name} = {out[j, c]!r}, finite differences of the closure: {d1[j]!r} (h) / {d2[j]!r} (h/2)",
+                 f"point centre+{off[gen[j]].tolist()}: returned d/d{name} = {float(out[j, c])!r}, finite differences of the closure: {float(d1[j])!r} (h) / {float(d2[j])!r} (h/2)",
                  {"offset": off[gen[j]].tolist(), "component": name, "expected_fd": float(d2[j])})
 
 
 # ====================================================================== directed witnesses: polar axis and centre
+WITNESS_DESC = "AtomGrid(r=[1/4,1/2,1,2,4],w=[1/4,1/4,1/2,1,2],degrees=[7],lebedev,origin).interpolate(c1*(x+y+z))"
 WITNESS_CFG = {"r": ["1/4", "1/2", "1", "2", "4"], "w": ["1/4", "1/4", "1/2", "1", "2"], "degrees": [7], "method": "lebedev",
                "center": ["0", "0", "0"], "rotate": 0}
 
@@ -876,7 +926,7 @@ def axis_witnesses(ctx, report):
         ctx.case(("witness", name))
         st, ret = call_closure(it, P, (1, False, False))
         if st != "ok" or ret.shape != (1, 3):
-            report(0, "derivatives_consistent_cartesian", f"witness:cartesian:{name}", str(ret)[:80], f"witness {name}: closure(deriv=1) gave {st} {str(ret)[:80]}",
+            report(0, "derivatives_consistent_cartesian", f"{WITNESS_DESC}({p},deriv=1)", str(ret)[:80], f"witness {name}: closure(deriv=1) gave {st} {str(ret)[:80]}",
                    {"kind": "witness", "name": name})
             continue
         g = ret[0]
@@ -891,7 +941,7 @@ def axis_witnesses(ctx, report):
         expected = [c1, c1, c1]
         if np.max(ex) > 0 and not close(g, expected, 1.0, 1e-8):
             out.append(name)
-            report(0, "derivatives_consistent_cartesian", f"witness:cartesian:{name}", [round(float(x), 9) + 0.0 for x in g],
+            report(0, "derivatives_consistent_cartesian", f"{WITNESS_DESC}({p},deriv=1)", [round(float(x), 9) + 0.0 for x in g],
                    f"interpolant of the linear function c1 (x + y + z) on AtomGrid(r=[1/4,1/2,1,2,4], lebedev degree 7, origin): closure(deriv=1) at "
                    f"{p} ({'the centre' if name == 'centre' else 'polar axis'}) returns {[round(float(x), 9) for x in g]}, the gradient of the returned interpolant "
                    f"(finite differences {[round(x, 7) for x in fd2]}, analytic {round(c1, 9)} each) is not what is returned",
@@ -906,7 +956,7 @@ def axis_witnesses(ctx, report):
         d1, d2 = (vals[0] - vals[1]) / (2 * h), (vals[2] - vals[3]) / h
         if fd_disagrees(np.array([ret[2]]), np.array([d1]), np.array([d2]), 1.0)[0] > 0 and abs(ret[2] - r * c1) > 1e-8:
             out.append("sph")
-            report(0, "derivatives_consistent_spherical_axis", "witness:spherical:+z", [round(float(x), 9) + 0.0 for x in ret],
+            report(0, "derivatives_consistent_spherical_axis", f"{WITNESS_DESC}([0.0, 0.0, 1.5],deriv=1,deriv_spherical=True)", [round(float(x), 9) + 0.0 for x in ret],
                    f"same interpolant, closure(deriv=1, deriv_spherical=True) at [0, 0, 1.5] (theta = phi = 0) returns (d/dr, d/dtheta, d/dphi) = "
                    f"{[round(float(x), 9) for x in ret]}; d/dphi of the returned interpolant F(r, theta, phi) at phi = 0 is r c1 = {round(r * c1, 9)} "
                    f"(finite differences {round(d2, 7)})",
@@ -915,7 +965,7 @@ def axis_witnesses(ctx, report):
 
 
 # ====================================================================== molecular grid
-def check_mol(ctx, spec, rec, B: Bucket, report, tag):
+def check_mol(ctx, spec, rec, B: Bucket, report, tag, axis_today=True):
     import random
 
     from grid.molgrid import MolGrid
@@ -972,11 +1022,20 @@ def check_mol(ctx, spec, rec, B: Bucket, report, tag):
     offs = [[0.0, 0.0, 0.0], [0.0, 0.0, 0.75], [0.5, -0.25, 1.0]] + [[rng.randint(-16, 16) / 8.0 for _ in range(3)] for _ in range(3)]
     P = np.array(offs) + c0
     P = np.vstack([P, atoms[-1][2].centre[None, :], atoms[-1][2].points[-1:]])
-    M = len(P)
-    sphs = [np.asarray(a[1].convert_cartesian_to_spherical(P), dtype=float) for a in atoms]
+    sphs_all = [np.asarray(a[1].convert_cartesian_to_spherical(P), dtype=float) for a in atoms]
     for i, a in enumerate(atoms):
-        B.defs.append(f"Definition m{tag}p{i} : list (bigQ * ddata) :=\n  {coq_pts(a[2].lmax // 2, sphs[i])}.\n")
+        B.defs.append(f"Definition m{tag}p{i} : list (bigQ * ddata) :=\n  {coq_pts(a[2].lmax // 2, sphs_all[i])}.\n")
+    gen_idx = [j for j in range(len(P)) if all(point_class(P[j] - a[2].centre) == "generic" for a in atoms)]
+    if not axis_today:   # see check_atom: points on some atom's polar axis leave the Cartesian-mode correspondence
+        for i, a in enumerate(atoms):
+            B.defs.append(f"Definition m{tag}q{i} : list (bigQ * ddata) :=\n  {coq_pts(a[2].lmax // 2, sphs_all[i][gen_idx])}.\n")
+    P_all = P
     for mode in [(0, False, False), (1, False, False), (1, True, False), (1, False, True), (2, False, True), (2, False, False)]:
+        sub = mode == (1, False, False) and not axis_today
+        P = P_all[gen_idx] if sub else P_all
+        sphs = [x[gen_idx] for x in sphs_all] if sub else sphs_all
+        pq = "q" if sub else "p"
+        M = len(P)
         rec.calls = []
         st, out = call_closure(mit, P.copy(), mode, mol=True)
         calls = list(rec.calls)
@@ -994,7 +1053,7 @@ def check_mol(ctx, spec, rec, B: Bucket, report, tag):
             orep(f"mol_sum:{mode}", "ok", f"mode {mode}: the molecular closure returns values although an atomic closure raises {exp_parts[0][1]}", {"mode": list(mode)})
         if st == "valueerror":
             # the first atom raises before any further spline is evaluated
-            B.case("res_close 0%bigQ (mol_combine_q [Err]) Err", (f"mol_assemble:{mode}", spec, trep))
+            B.case("res_close (dq 0 0) (mol_combine_q [Err]) Err", (f"mol_assemble:{mode}", spec, trep))
             continue
         exp_calls = [(int(kb[i]) + k, nu) for i in range(len(atoms)) for nu in nus for k in range(Ks[i])]
         if [(c[0], c[2]) for c in calls] != exp_calls:
@@ -1013,7 +1072,7 @@ def check_mol(ctx, spec, rec, B: Bucket, report, tag):
             big = max(big, maxabs(blk))
             if not all(np.array_equal(c[1], sphs[i][:, 0]) for c in calls[pos - len(nus) * Ks[i]:pos]):
                 trep("corr_spline_calls", f"mol_radii:{mode}", i, f"mode {mode}: atom {i} splines are not evaluated at the distances to its own centre")
-            parts.append(f"assemble_q m{tag}p{i} {dyll(rvs)} {dyll(rcs)} {mode[0]}%nat {bcoq(mode[1])} {bcoq(mode[2])}")
+            parts.append(f"assemble_q m{tag}{pq}{i} {dyll(rvs)} {dyll(rcs)} {mode[0]}%nat {bcoq(mode[1])} {bcoq(mode[2])}")
         tolm = dy(float(2.0 ** math.ceil(math.log2(TIE_TOL * len(atoms) * max(big, maxabs(out))))))
         B.case(f"res_close {tolm} (mol_combine_q [" + "; ".join(parts) + f"]) ({obs})", (f"mol_assemble:{mode}", spec, trep))
 
@@ -1026,11 +1085,11 @@ def plan(ctx: Ctx):
         combos = [("lebedev", "uniform"), ("lebedev", "mixed"), ("lebedev", "mixed"), ("spherical", "uniform"),
                   ("spherical", "mixed"), ("maxdet", "uniform"), ("maxdet", "mixed"), ("lebedev", "uniform")]
     else:
-        combos = [(m, k) for m in ("lebedev", "spherical", "maxdet") for k in ("uniform", "mixed")] * 8 + [("ahrens_beylkin", "uniform"), ("ahrens_beylkin", "mixed")]
+        combos = [(m, k) for m in ("lebedev", "spherical", "maxdet") for k in ("uniform", "mixed")] * 20 + [("ahrens_beylkin", "uniform"), ("ahrens_beylkin", "mixed")] * 2
     for m, k in combos:
         cfgs.append(make_config(rng, m, k))
     mols = []
-    for _ in range(1 if ctx.quick else 5):
+    for _ in range(1 if ctx.quick else 10):
         atoms = []
         for _ in range(rng.choice([2, 2, 3])):
             c = make_config(rng, rng.choice(["lebedev", "spherical"]), rng.choice(["uniform", "mixed"]))
@@ -1058,25 +1117,30 @@ def run(ctx: Ctx):
     def report(size, obligation, key, observed, text, replay, found=True, dep=None):
         pending.append((size, obligation, key, observed, text, replay, found, dep))
 
+    for pb in consts.pop("problems"):
+        report(0, "gen_source_pattern", "gen:" + pb.split(":")[0], None,
+               f"source pattern the model depends on is no longer recognised ({pb}); the model keeps the previous constant", {}, found=False)
+
     rec = Recorder()
     ag, old = install_recorder(rec)
     buckets = []
     try:
         validate_spline_hypotheses(ctx, ctx.rng, report)
         cfgs, mols = plan(ctx)
+        reproduced = axis_witnesses(ctx, report)
+        ctx.cov["axis_witnesses_reproduced"] = reproduced
+        axis_today = "+z" in reproduced or "centre" in reproduced
         for t, cfg in enumerate(cfgs):
             B = Bucket(f"C09_case_{t}.v")
-            check_atom(ctx, cfg, rec, B, report, t)
+            check_atom(ctx, cfg, rec, B, report, t, axis_today)
             buckets.append(B)
             if t < 4:
                 ctx.sample({"r": cfg["r"], "w": cfg["w"], "degrees": cfg["degrees"], "method": cfg["method"], "center": cfg["center"],
                             "rotate": cfg["rotate"], "L": cfg["L"], "coef_shell0": cfg["coef"][0], "mode": cfg["mode"]})
         for t, spec in enumerate(mols):
             B = Bucket(f"C09_mol_{t}.v")
-            check_mol(ctx, spec, rec, B, report, t)
+            check_mol(ctx, spec, rec, B, report, t, axis_today)
             buckets.append(B)
-        reproduced = axis_witnesses(ctx, report)
-        ctx.cov["axis_witnesses_reproduced"] = reproduced
     finally:
         ag.CubicSpline = old
 
